@@ -16,13 +16,19 @@ func init() {
 		Explanation: "C03.construct: Chunk values are built, and the fields id/idCalculated/data/storage/converters are written, only in the three constructors and the two accessors. " +
 			"C03.ctor-verifies: in NewChunkWithID and NewChunkFromStorage (Chunk.ID inlined) every path returning a non-nil chunk took the skipVerify edge or computed Digest.Sum over the decoded data and took the equal edge of compare(sum, requested id); Chunk.ID marks the id calculated only after hashing successfully decoded data. " +
 			"C03.backends: for every type implementing Store (enumerated from the type checker) the non-nil chunk returned by GetChunk originates only from a verifying constructor called with the method's own id and with skipVerify being the store's own SkipVerify option or the constant false, or from GetChunk(id)/request.wait() on an inner store with the same id. " +
-			"C03.consumers: writeChunk and the UnTarIndex worker use the decoded data only behind the equal edge of compare(indexed size, len(data)). C03.verify-option: StoreOptions.SkipVerify is written only by configuration code.",
+			"C03.consumers: writeChunk and the UnTarIndex worker use the decoded data only behind the equal edge of compare(indexed size, len(data)). C03.verify-option: StoreOptions.SkipVerify is written only by configuration code. " +
+			"C03.sparse-file-bits (shared with C10): in the copy-on-read file behind mount-index a chunk's done bit is set only behind the nil edge of WriteAt(verified chunk data, chunk start), the file is read only after loadRange returned nil and loadRange skips a chunk only when its bit is set or it is the null chunk - otherwise a range that was never fetched (or whose fetch failed verification) is served as zeros.",
 		NotDecided: "correctness of the SHA and zstd implementations; which chains a user configures; data races on Chunk.",
 		Rules: []rule{
 			{"C03.construct", "Chunk literals and writes of its fields only in the constructors/accessors", 5, c03Construct},
 			{"C03.ctor-verifies", "verifying constructors return a chunk only via skipVerify or hash-computed-and-equal", 3, c03CtorVerifies},
 			{"C03.backends", "every Store.GetChunk returns only verified-constructor results for its own id or forwards an inner GetChunk(id)", 13, c03Backends},
 			{"C03.consumers", "consumers compare the decoded length with the indexed size before using the data", 2, c03Consumers},
+			{"C03.sparse-file-bits", "mount's copy-on-read file: a chunk's range is served only after its verified data was written (done bit after WriteAt; read after load)", 5, func(c *Ctx) {
+				c10SetAfterWrite(c)
+				c10ReadAfterLoad(c)
+				c10SkipOnly(c)
+			}},
 			{"C03.verify-option", "SkipVerify options are only written by configuration code", 1, c03VerifyOption},
 		},
 	})
